@@ -89,6 +89,8 @@ class Engine(CoreMixin, ExprMixin, CallMixin, StmtMixin, BuiltinMixin):
         self.called_contracts = set()
         self.heap_written = set()
         self.loop_ordinal = 0
+        self.lemma_instances_used = set()
+        self._concat_all_seen = []
         self.uses_id = False
         self.cur_glob = fi.glob
         self.cur_defcls = fi.cls
@@ -228,6 +230,8 @@ class Engine(CoreMixin, ExprMixin, CallMixin, StmtMixin, BuiltinMixin):
             st.assume(pre)
             for pname, hint, t in self.entry_kind_checks:
                 self.obl("kind", fi.node, st, self.kind_pred(hint, t), detail=f"parameter {pname} is {hint[0]}")
+            if "VREJ" in (contract.lemmas or []):
+                self.add_vrej_axioms()
             self.entry_pc = st.pc
             self.cover(fi.node, st, "entry (requires satisfiable)")
             if any(isinstance(x, (ast.Yield, ast.YieldFrom)) for x in ast.walk(fi.node)):
@@ -248,6 +252,7 @@ class Engine(CoreMixin, ExprMixin, CallMixin, StmtMixin, BuiltinMixin):
         rep.trusted = sorted(self.trusted_used)
         rep.frame_log = list(self.frame_log)
         rep.called = sorted(self.called_contracts)
+        rep.lemma_instances = sorted(self.lemma_instances_used)
         rep.trivial = self.trivial
         rep.ctx = (list(self.decls), list(self.globals_assumed), list(self.escape_facts))
         rep.pending = list(self.obls) if rep.out_of_subset is None else []
@@ -306,6 +311,43 @@ class Engine(CoreMixin, ExprMixin, CallMixin, StmtMixin, BuiltinMixin):
             else:
                 raise OutOfSubset("loop control escaping function")
         self.spec_state = None
+
+    def add_vrej_axioms(self):
+        """VREJ[K], one axiom per validator class K with a verified contract Validator.__call__[K]:
+             for every validator object s of class K meeting that contract's requires, and every value x,
+             vrejects(s, x)  <=>  <the contract's raise condition>.
+        vrejects(s, x) is *defined* as "s(x, .) raises ValidationError" (the callers' view Validator.__call__), so each axiom is
+        that contract restated -- generated from the registered contract text itself, never written by hand."""
+        from .contracts import REG, SpecEval
+        key = "statham.schema.validation.base:Validator.__call__"
+        prop_ok = None
+        self.spec_state = None
+        for (k, inst), c in sorted(REG.items(), key=lambda kv: str(kv[0])):
+            if k != key or not inst or c.trusted or not c.raises:
+                continue
+            cls = self.spec_names.get(inst)
+            if cls is None:
+                continue
+            req = c.requires
+            i = req.find("is_obj(property_)")
+            if i >= 0:
+                j = req.find(" and ", req.find("attr_absent(property_, 'parent')"))
+                req = (req[:i].rstrip()[:-4] if req[:i].rstrip().endswith(" and") else req[:i]) + (req[j:] if j >= 0 else "")
+            s, x = fresh_name("vs"), fresh_name("vx")
+            sp = SpecEval(self, {"self": Val(s, kind="obj", cls=cls), "value": Val(x)}, glob=find_function(c.key).glob)
+            sp.bound_vars = (s, x)
+            try:
+                rq = sp.compile_bool(req)
+                cond = Or(*[sp.compile_bool(cnd) for _, cnd in c.raises])
+            except OutOfSubset as ex:
+                self.notes.append(f"VREJ[{inst}] not generated: {ex}")
+                continue
+            fact = (f"(forall (({s} V) ({x} V)) (! (=> (and (k_obj {s}) (= (class_of (oid {s})) {self.ctab.cid(cls)}) {rq}) "
+                    f"(= (vrejects {s} {x}) {cond})) :pattern ((vrejects {s} {x}))))")
+            self.globals_assumed.append(fact)
+            self.trusted_used.add(f"lemma VREJ[{inst}]: the verified contract Validator.__call__[{inst}] restated for vrejects"
+                                  + (" (its _validate contract is bounded-only)" if inst == "MultipleOf" else ""))
+        self.use_spec_fun("vrejects")
 
     def cover(self, node, st, what):
         o = Obligation(f"{self.cname}/cover#{len([x for x in self.obls if x.kind == 'cover']) + 1}@L{getattr(node, 'lineno', 0)}",
